@@ -30,6 +30,7 @@ REQUIRE = {
         "group: one class per chain": 20,
         "group: classes==reference": 20,
         "group: maps preserve decays": 20,
+        "repeated enumeration": 4,
     },
     "min_nontrivial": 100,
 }
@@ -157,6 +158,51 @@ def run(ctx):
                 ctx.count("chains_enumerated", len(chains))
                 if n == 4 and not identical:
                     ctx.sample({"section": "enumerate", "n": 4, "count": len(chains), "first_chains": [repr(c) for c in chains[:3]]})
+
+    # ---------------------------------------------------------------- repeated enumeration (history): the result of one call is
+    # edited in place, the enumeration is asked again for the same particles, then for NEW particle objects that carry the same
+    # names with other quantum numbers (a spin scan).  Every call must return all (2n-3)!! trees over exactly the objects given.
+    if ctx.section_active("repeat"):
+        for n in range(3, ctx.pick(5, 6) + 1):
+            if not ctx.owns(n):
+                continue
+            tag = "rep%d" % n
+            top = BaseParticle("T" + tag, J=0, P=-1)
+            finals = [BaseParticle("f%s%d" % (tag, i), J=0, P=-1) for i in range(n)]
+            hist = []
+            try:
+                first = DecayChain.from_particles(top, finals)
+                hist.append(("call", len(first)))
+                first_n = len(first)
+                del first[1:]
+                hist.append(("del result[1:]", len(first)))
+                again = DecayChain.from_particles(top, finals)
+                hist.append(("call", len(again)))
+                again.pop()
+                again.reverse()
+                third = DecayChain.from_particles(top, list(finals))
+                hist.append(("pop+reverse, call", len(third)))
+                ok_counts = first_n == dfact(n) and len(again) + 1 == dfact(n) and len(third) == dfact(n)
+                distinct = len({frozenset(ref_groupings(c, False)[0]) for c in third}) == len(third)
+                trees = all(tree_ok(c, top, finals)[0] for c in third)
+                ctx.check("repeated enumeration", ok_counts and distinct and trees, lambda: {"n": n, "history": hist, "want": dfact(n), "distinct": distinct, "trees_ok": trees},
+                          mechanism="from_particles after the previous result was edited in place")
+                top2 = BaseParticle("T" + tag, J=1, P=-1)
+                finals2 = [BaseParticle("f%s%d" % (tag, i), J=1 if i == 0 else 0, P=-1) for i in range(n)]
+                scan = DecayChain.from_particles(top2, finals2)
+                given = {id(x) for x in finals2}
+                bad = []
+                for c in scan:
+                    lv = [o for d in c for o in d.outs if not any(o is d2.core for d2 in c)]
+                    tp = [d.core for d in c if not any(d.core is o for d2 in c for o in d2.outs)]
+                    if {id(x) for x in lv} != given or len(tp) != 1 or tp[0] is not top2:
+                        bad.append({"chain": repr(c), "leaf_J": [getattr(x, "J", None) for x in lv], "top_J": [getattr(x, "J", None) for x in tp]})
+                ctx.check("repeated enumeration", len(scan) == dfact(n) and not bad, lambda: {"n": n, "count": len(scan), "want": dfact(n), "chains_not_over_the_given_objects": bad[:2],
+                                                                                     "given": "new particle objects with the names of the previous call, J(first final)=1, J(top)=1"},
+                          mechanism="from_particles for new particle objects with the names of an earlier call")
+                ctx.case(("repeat", n), nontrivial=True)
+            except Exception as e:
+                ctx.violation("repeated enumeration", ctx.exc_witness(e, n=n, history=hist), mechanism="repeated from_particles raises")
 
     # ---------------------------------------------------------------- topology_same, all pairs
     if ctx.section_active("pairs"):
